@@ -113,7 +113,9 @@ chk("C12", "model_checking",
     "selection, fill, width, alignment defaults, radix digits from the 64-bit value, escapes; UTF-8 length for the print "
     "family). TLC (spec/GenFormat.tla) enumerates every specifier of the grammar (5 indexes x 21 alignments incl. the "
     "fills 0 * blank x b : < # 7 x 5 widths x 5 radixes, with and without the colon) between literal text x 6 argument "
-    "lists and checks laws of the renderer on each (width respected, escapes, indexed specifiers do not consume); "
+    "lists, plus 13 specifiers that set a radix (with and without the colon), a width, a fill or an alignment paired with "
+    "7 plain ones in both orders (what one specifier sets must not reach the next), "
+    "and checks laws of the renderer on each (width respected, escapes, indexed specifiers do not consume); "
     "seeded random strings of 1-6 pieces incl. 32 malformed shapes with 0-4 random arguments are added. Every case is "
     "evaluated by the real interpreter and spec/FormatTrace.tla compares the returned string / runtime error with "
     "Render. Scripts of 1-6 print / println / eprint / eprintln calls run through the real binary; TLC validates "
